@@ -44,5 +44,27 @@ int main ()
     for (unsigned i=0;i<4;i++) for (unsigned j=0;j<4;j++) { Rat e = a[i]*b[j]; if (i == j) e += (i == 0 ? Rat(-1) : Rat(1)) * in / Rat(2);
       O.put (Rat(Rat(od[i][j]) - e)); O.put (Rat(Rat(odt[j][i]) - e)); } };
 
+  // double-precision aliasing: x op= (reference to a component of x) against x op= (copy of that component), bit for bit, with
+  // components of any magnitude (subnormal, tiny, ordinary, huge).  Output: number of differing components
+  OP("o.c16.dalias") { std::string type = A.next(); std::string op = A.next(); unsigned k = A.nat(); std::vector<double> v; while (!A.done()) v.push_back (hexdouble (A.next()));
+    auto differ = [] (const double* x, const double* y, unsigned n) { int bad = 0; for (unsigned i=0;i<n;i++) if (memcmp (x+i, y+i, 8) != 0 && !(x[i] != x[i] && y[i] != y[i])) bad++; return bad; };
+    int bad = -1;
+    if (type == "vec3") { Vector<3,double> a (v[0], v[1], v[2]), b = a; double c = a[k]; if (op == "mul") { a *= a[k]; b *= c; } else { a /= a[k]; b /= c; } bad = differ (&a[0], &b[0], 3); }
+    else if (type == "stokes") { Stokes<double> a (v[0], v[1], v[2], v[3]), b = a; double c = a[k]; if (op == "mul") { a *= a[k]; b *= c; } else { a /= a[k]; b /= c; } bad = differ (&a[0], &b[0], 4); }
+    else if (type == "mat22") { Matrix<2,2,double> a, b; for (unsigned i=0;i<2;i++) for (unsigned j=0;j<2;j++) a[i][j] = v[2*i+j]; b = a; double c = a[k/2][k%2];
+      if (op == "mul") { a *= a[k/2][k%2]; b *= c; } else { a /= a[k/2][k%2]; b /= c; } bad = differ (&a[0][0], &b[0][0], 2) + differ (&a[1][0], &b[1][0], 2); }
+    else if (type == "quatH" || type == "quatU") {
+      if (type == "quatH") { Quaternion<double,Hermitian> a (v[0], v[1], v[2], v[3]), b = a; double c = a[k]; if (op == "mul") { a *= a[k]; b *= c; } else { a /= a[k]; b /= c; }
+        double x[4] = { a.s0, a.s1, a.s2, a.s3 }, y[4] = { b.s0, b.s1, b.s2, b.s3 }; bad = differ (x, y, 4); }
+      else { Quaternion<double,Unitary> a (v[0], v[1], v[2], v[3]), b = a; double c = a[k]; if (op == "mul") { a *= a[k]; b *= c; } else { a /= a[k]; b /= c; }
+        double x[4] = { a.s0, a.s1, a.s2, a.s3 }, y[4] = { b.s0, b.s1, b.s2, b.s3 }; bad = differ (x, y, 4); } }
+    else if (type == "jones") { typedef std::complex<double> C; Jones<double> a (C(v[0],v[1]), C(v[2],v[3]), C(v[4],v[5]), C(v[6],v[7])), b = a;
+      double& ref = DatumTraits<C>::element (DatumTraits< Jones<double> >::element (a, k/2), k%2); double c = ref;
+      if (op == "mul") { a *= ref; b *= c; } else { a /= ref; b /= c; }
+      double x[8] = { a.j00.real(), a.j00.imag(), a.j01.real(), a.j01.imag(), a.j10.real(), a.j10.imag(), a.j11.real(), a.j11.imag() };
+      double y[8] = { b.j00.real(), b.j00.imag(), b.j01.real(), b.j01.imag(), b.j10.real(), b.j10.imag(), b.j11.real(), b.j11.imag() }; bad = differ (x, y, 8); }
+    else throw ProtocolError ("type");
+    O.put (bad); };
+
   return run_stream (ops);
 }
